@@ -296,11 +296,12 @@ def long_tokens(ctx):
     out = []
     for n in _sizes(ctx, [15, 16, 17, 31, 32, 33, 63, 64, 65, 255, 256, 257, 1023, 1025], [4097, 70000]):
         name = ('a-b_c:d9' * (n // 8 + 1))[:n]
-        digits = ('1234567890' * (n // 10 + 1))[:n]
+        # numbers are evaluated exactly by the model (bignum decimal conversion is quadratic): number tokens stay <= 1100 digits
+        digits = ('1234567890' * (n // 10 + 1))[:min(n, 1100)]
         out += ['%s eq 1' % name, '%s.%s pr' % (name, name), 'x eq %s' % digits, 'x eq -%s' % digits, 'x eq %s.5' % digits, 'x eq 0.%s' % digits, 'x eq 1.%se+5' % digits,
                 'x eq %s.1.2' % digits, 'x eq 1.2.%s' % digits, 'x eq "%s"' % name, 'x eq "%s' % name, 'x in [%s]' % ', '.join(['1'] * n), 'x in [%s]' % ','.join(['"a"'] * n),
                 'x eq 1 %sand y eq 2' % ('\n' * n), 'x in [1,%s2]' % (' ' * n), 'x eq 0%s' % digits, 'x eq %s.' % digits, '%s' % name, '%s.' % name, '.%s pr' % name,
-                'x eq 1.0e%s' % digits[:min(n, 400)], 'x%seq 1' % (' ' * min(n, 40)), '%s x eq 1' % ('(' * n), 'x eq 1 %s' % (')' * n)]
+                'x eq 1.0e%s' % digits[:min(n, 400)], 'x%seq 1' % (' ' * min(n, 40)), '%s x eq 1' % ('(' * min(n, 2000)), 'x eq 1 %s' % (')' * min(n, 2000))]   # ANTLR's error recovery is quadratic in the number of unclosed parentheses
     return out
 
 def string_pairs(ctx):
